@@ -132,6 +132,8 @@ class Run(object):
                     return self.stop_test() if kind == 'stop' else self.assoc_kill_test()
                 finally:
                     s2.SELECT_SLEEP = 0.0
+            if kind == 'stop-dead' and i == ti:
+                return self.stop_dead_test()
             if kind == 'silence' and i == ti:
                 if r.p.state not in (2, 13):
                     return 'n/a'           # ARTIM is not armed here: silence is outside the property
@@ -193,6 +195,36 @@ class Run(object):
             return 'the loop died while being stopped in Sta%d: %r' % (state, box['exc'])
         if 'exc' in box:
             return 'a pass blocked while a stop was pending in Sta%d: %s' % (state, box['exc'])
+        return None
+
+    def stop_dead_test(self):
+        """a stop requested after the loop has died: the peer disconnects, the association ends, and a careless user
+        hands over one more primitive (the loop raises KeyError on it - outside C13); kill() must still return"""
+        import threading
+        from pynetdicom2 import dulprovider
+        r = self.r
+        p = r.p
+        if r.tr.blocked:
+            return 'n/a'
+        if p.crashed is None:
+            if r.sock is not None and not r.sock.closed:
+                r.feed('EOF')
+            r.settle()
+            if p.crashed is None and p.state == 1:
+                r.user(user_prim('rlrq'))
+                r.settle()
+        if p.crashed is None:
+            return 'n/a'
+        done = threading.Event()
+
+        def killer():
+            dulprovider.DULServiceProvider.kill(p)
+            done.set()
+        threading.Thread(target=killer, daemon=True).start()
+        if not done.wait(3):
+            p._is_killed.set()
+            return ('kill() did not return within 3 s after the loop had ended with %s: a request to stop did not complete'
+                    % type(p.crashed).__name__)
         return None
 
     def assoc_kill_test(self):
@@ -281,11 +313,43 @@ def faults_for(conv, tier):
         out.append(('stop', i, 0))
         if i == 1:
             out.append(('assoc-kill', i, 0))
+            out.append(('stop-dead', i, 0))
     out.append(('none', -1, 0))
     return out
 
 
+ENTITY_SCRIPT = '''
+import os, sys, json
+sys.path.insert(0, os.environ['REPO']); sys.path.insert(0, %r)
+from harness import c20
+print(json.dumps(c20.silent_peer_case({'busy': 0, 'wait': 14})))
+'''
+
+
+def entity_silent_start():
+    """a real accepting entity on loopback TCP whose patience (60 s) is longer than ARTIM; the peer connects and never
+    sends its first PDU: the connection must be closed when ARTIM (10 s) is over.  Fresh interpreter (real select, real
+    clock), run beside the deterministic cases."""
+    import os, subprocess, sys
+    return subprocess.Popen([sys.executable, '-c', ENTITY_SCRIPT % os.path.dirname(os.path.dirname(os.path.abspath(__file__)))],
+                            env=dict(os.environ, REPO=common.REPO), stdout=subprocess.PIPE, stderr=subprocess.PIPE)
+
+
+def entity_silent_end(proc):
+    import json
+    try:
+        out, err = proc.communicate(timeout=60)
+    except Exception:  # pylint: disable=broad-except
+        proc.kill()
+        return 'the accepting entity with a silent peer did not finish within 60 s'
+    if proc.returncode != 0:
+        common.raise_for('lib: the accepting entity with a silent peer failed: ' + err.decode('utf-8', 'replace')[-600:])
+    return json.loads(out.decode().strip().split('\n')[-1])
+
+
 def replay(case):
+    if case.get('entity_silent'):
+        return entity_silent_end(entity_silent_start())
     conv = conversations()[case['conversation']]
     v = Run(conv, tuple(case['fault'])).go()
     return None if v in ('n/a', 'late') else v
@@ -297,12 +361,13 @@ def run(chk):
                 'peer disconnecting after every byte prefix of every peer turn and before every local step (orderly close; and a '
                 'connection reset, where recv raises, at five offsets of every turn), the peer going '
                 'silent for ever after every turn (clock advanced past ARTIM), a transport write failing during every turn, a stop '
-                'requested at every quiescent point (run() in a real thread: a stop() that succeeds ends the loop and only in the idle, closed state; kill() returns); '
+                'requested at every quiescent point (run() in a real thread: a stop() that succeeds ends the loop and only in the idle, closed state; kill() returns - also after the loop has ended with an exception); '
                 'oracle: no pass blocks, the loop does not die, final state idle, socket closed and dropped, ARTIM stopped, '
-                'the user told when an association had been indicated; non-trivial = faults that strike mid-conversation')
+                'the user told when an association had been indicated; and a real accepting entity on loopback TCP whose peer never sends its first PDU (closed at ARTIM); non-trivial = faults that strike mid-conversation')
     chk.trusted += ['harness/s2.py: a recv() on a blocking socket with nothing to read is reported as blocking for ever',
                     'OS behaviour assumed: sendall() and connect() return (or raise) in bounded time']
     convs = conversations()
+    ent = entity_silent_start()
     for name in sorted(convs):
         for fault in faults_for(convs[name], chk.tier):
             try:
@@ -315,7 +380,7 @@ def run(chk):
             if v in ('n/a', 'late'):
                 chk.count('skipped:' + v)
                 continue
-            if v and fault[0] in ('stop', 'assoc-kill') and common.timing_verdict(v):
+            if v and fault[0] in ('stop', 'assoc-kill', 'stop-dead') and common.timing_verdict(v):
                 # real threads, real seconds: counts only if it reproduces twice more
                 if not all(Run(convs[name], fault).go() for _ in range(2)):
                     chk.count('timing-verdict-not-reproduced')
@@ -324,4 +389,9 @@ def run(chk):
                 chk.violation('C13:%s:%s' % (fault[0], v[:25]),
                               '%s, %s at turn %d offset %d: %s' % (name, fault[0], fault[1], fault[2], v),
                               {'conversation': name, 'fault': list(fault)})
+    v = entity_silent_end(ent)
+    chk.case('entity-silent', True, {'entity_silent': 'real accepting entity, peer never sends its first PDU'})
+    chk.count('entity-silent')
+    if v and not (common.timing_verdict(v) and not all(entity_silent_end(entity_silent_start()) for _ in range(2))):
+        chk.violation('C13:entity-silent', v, {'entity_silent': True})
     chk.lean(['Dicom.Props.C13'])
